@@ -1,5 +1,474 @@
+//! linfa-pls, linfa-reduction (PCA), linfa-ica, linfa-preprocessing scalers / whiteners, linfa-kernel, LpDist.
+
+use crate::rt::{roundtrip, Fmt, Opts};
 use crate::Case;
+use serde::de::DeserializeOwned;
+use serde::Serialize;
 use vengine::Obs;
-pub const NKINDS: u16 = 1;
-pub const REQUIRED: &[&str] = &[];
-pub fn check(_c: &Case, _obs: &mut Obs) {}
+
+pub const NKINDS: u16 = 10;
+pub const REQUIRED: &[&str] = &[
+    "PlsRegression",
+    "PlsCanonical",
+    "PlsCca",
+    "PlsSvdParams",
+    "Pca",
+    "PcaParams",
+    "FastIca",
+    "FastIcaValidParams",
+    "LinearScaler",
+    "LinearScalerParams",
+    "NormScaler",
+    "FittedWhitener",
+    "Whitener",
+    "LpDist",
+    "KernelMethod",
+    "Kernel",
+];
+
+pub fn check(c: &Case, obs: &mut Obs) {
+    obs.class_if(c.f32, "f32");
+    obs.class_if(!c.f32, "f64");
+    if c.f32 {
+        impl_f32::run(c, obs)
+    } else {
+        impl_f64::run(c, obs)
+    }
+}
+
+// Compile-time probe (autoref specialisation): does a concrete type implement the serde traits?
+// `(&Probe(&value)).try_roundtrip(..)` resolves to `ViaSerde` when it does and to `ViaNone` otherwise,
+// so the adapter for a type whose derive can never be satisfied still compiles — and starts testing
+// the round trip as soon as the implementation exists.
+pub struct Probe<'a, T>(pub &'a T);
+pub trait ViaSerde<T> {
+    fn try_roundtrip(&self, obs: &mut Obs, name: &str, opts: Opts) -> Option<Vec<(Fmt, T)>>;
+}
+impl<'a, T: Serialize + DeserializeOwned> ViaSerde<T> for Probe<'a, T> {
+    fn try_roundtrip(&self, obs: &mut Obs, name: &str, opts: Opts) -> Option<Vec<(Fmt, T)>> {
+        Some(roundtrip(obs, name, self.0, opts))
+    }
+}
+pub trait ViaNone<T> {
+    fn try_roundtrip(&self, _obs: &mut Obs, _name: &str, _opts: Opts) -> Option<Vec<(Fmt, T)>> {
+        None
+    }
+}
+impl<'a, T> ViaNone<T> for &Probe<'a, T> {}
+
+macro_rules! adapters {
+    ($modname:ident, $F:ty) => {
+        mod $modname {
+            #[allow(unused_imports)]
+            use super::{Probe, ViaNone, ViaSerde};
+            use crate::rt::*;
+            use crate::util::*;
+            use crate::Case;
+            use linfa::traits::{Fit, Predict, Transformer};
+            use linfa::{Dataset, DatasetBase, ParamGuard};
+            use linfa_ica::fast_ica::{FastIca, GFunc};
+            use linfa_kernel::{Kernel, KernelMethod, KernelType};
+            use linfa_nn::distance::{Distance, LpDist};
+            use linfa_pls::{PlsCanonical, PlsCca, PlsRegression, PlsSvd};
+            use linfa_preprocessing::linear_scaling::{LinearScaler, LinearScalerParams, ScalingMethod};
+            use linfa_preprocessing::norm_scaling::NormScaler;
+            use linfa_preprocessing::whitening::Whitener;
+            use ndarray::Array2;
+            use vengine::Obs;
+            type F = $F;
+
+            pub fn run(c: &Case, obs: &mut Obs) {
+                let mut k = Knobs::new(&c.knobs);
+                match c.kind {
+                    0 => pls(c, obs, &mut k),
+                    1 => pls_svd_params(c, obs, &mut k),
+                    2 => pca(c, obs, &mut k),
+                    3 => ica(c, obs, &mut k),
+                    4 => linear_scaler(c, obs, &mut k),
+                    5 => norm_scaler(c, obs, &mut k),
+                    6 => whitener(c, obs, &mut k),
+                    7 => lp_dist(c, obs, &mut k),
+                    8 => kernel_method(c, obs, &mut k),
+                    _ => kernel(c, obs, &mut k),
+                }
+            }
+
+            fn queries(c: &Case) -> Array2<F> {
+                mat(&with_fixed_queries(&c.q, ncols(c)))
+            }
+            fn ymat(c: &Case, cols: usize) -> Array2<F> {
+                let n = c.x.len();
+                let t: Vec<Vec<F>> = (0..cols).map(|j| targets::<F>(c, j)).collect();
+                Array2::from_shape_fn((n, cols), |(i, j)| t[j].get(i).copied().unwrap_or(F::of(0.0)))
+            }
+
+            macro_rules! pls_one {
+                ($name:literal, $ty:ident, $c:expr, $obs:expr, $k:expr) => {{
+                    const T: &str = $name;
+                    let (c, obs, k) = ($c, $obs, $k);
+                    let p = ncols(c);
+                    let ycols = 1 + k.pick(2);
+                    let ncomp = 1 + k.pick(p.min(ycols).max(1));
+                    let params = $ty::<F>::params(ncomp)
+                        .scale(k.flag())
+                        .max_iterations(100)
+                        .tolerance(F::of(1e-6))
+                        .algorithm(if k.flag() { linfa_pls::Algorithm::Svd } else { linfa_pls::Algorithm::Nipals });
+                    let ds = Dataset::new(mat::<F>(&c.x), ymat(c, ycols));
+                    let model = match vengine::guard(|| params.fit(&ds)) {
+                        Ok(Ok(m)) => m,
+                        _ => return obs.skip("fit_failed"),
+                    };
+                    obs.class(T);
+                    obs.nontrivial();
+                    let q = queries(c);
+                    let qy = ymat(c, ycols).slice(ndarray::s![..q.nrows().min(c.x.len()), ..]).to_owned();
+                    let qx = q.slice(ndarray::s![..qy.nrows(), ..]).to_owned();
+                    let want_pred = observe(|| model.predict(&q));
+                    let want_tr = observe(|| {
+                        let d = model.transform(Dataset::new(qx.clone(), qy.clone()));
+                        (d.records, d.targets)
+                    });
+                    let scores = want_tr.clone().ok();
+                    let want_inv = observe(|| {
+                        let (r, t) = scores.clone().expect("scores");
+                        let d = model.inverse_transform(Dataset::new(r, t));
+                        (d.records, d.targets)
+                    });
+                    for (fmt, back) in roundtrip(obs, T, &model, STABLE) {
+                        eq_check(obs, T, fmt, &model, &back);
+                        must(obs, T, fmt, "weights", same_arr(model.weights().0, back.weights().0) && same_arr(model.weights().1, back.weights().1));
+                        must(obs, T, fmt, "loadings", same_arr(model.loadings().0, back.loadings().0) && same_arr(model.loadings().1, back.loadings().1));
+                        must(obs, T, fmt, "rotations", same_arr(model.rotations().0, back.rotations().0) && same_arr(model.rotations().1, back.rotations().1));
+                        must(obs, T, fmt, "coefficients", same_arr(model.coefficients(), back.coefficients()));
+                        same_behaviour(obs, T, fmt, "predict", &want_pred, || back.predict(&q), |a, b| same_arr(a, b));
+                        same_behaviour(
+                            obs,
+                            T,
+                            fmt,
+                            "transform",
+                            &want_tr,
+                            || {
+                                let d = back.transform(Dataset::new(qx.clone(), qy.clone()));
+                                (d.records, d.targets)
+                            },
+                            |a, b| same_arr(&a.0, &b.0) && same_arr(&a.1, &b.1),
+                        );
+                        same_behaviour(
+                            obs,
+                            T,
+                            fmt,
+                            "inverse_transform",
+                            &want_inv,
+                            || {
+                                let (r, t) = scores.clone().expect("scores");
+                                let d = back.inverse_transform(Dataset::new(r, t));
+                                (d.records, d.targets)
+                            },
+                            |a, b| same_arr(&a.0, &b.0) && same_arr(&a.1, &b.1),
+                        );
+                    }
+                }};
+            }
+
+            fn pls(c: &Case, obs: &mut Obs, k: &mut Knobs) {
+                match k.pick(3) {
+                    0 => pls_one!("PlsRegression", PlsRegression, c, obs, k),
+                    1 => pls_one!("PlsCanonical", PlsCanonical, c, obs, k),
+                    _ => pls_one!("PlsCca", PlsCca, c, obs, k),
+                }
+            }
+
+            fn pls_svd_params(c: &Case, obs: &mut Obs, k: &mut Knobs) {
+                const T: &str = "PlsSvdParams";
+                let params = PlsSvd::<F>::params(k.pick(4)).scale(k.flag());
+                let ds = Dataset::new(mat::<F>(&c.x), ymat(c, 1 + k.pick(2)));
+                obs.class(T);
+                // the fitted PlsSvd is not serialisable: compare what it does
+                let beh = |p: &linfa_pls::PlsSvdParams| -> Result<(Array2<F>, Array2<F>, Array2<F>, Array2<F>), String> {
+                    let m: PlsSvd<F> = p.fit(&ds).map_err(|e| e.to_string())?;
+                    let d = m.transform(ds.clone());
+                    Ok((m.weights().0.clone(), m.weights().1.clone(), d.records, d.targets))
+                };
+                let want = observe(|| beh(&params));
+                obs.class_if(matches!(want, Ok(Ok(_))), "refit_compared_models");
+                for (fmt, back) in roundtrip(obs, T, &params, STABLE) {
+                    eq_check(obs, T, fmt, &params, &back);
+                    same_behaviour(obs, T, fmt, "refit", &want, || beh(&back), |a, b| match (a, b) {
+                        (Ok(a), Ok(b)) => same_arr(&a.0, &b.0) && same_arr(&a.1, &b.1) && same_arr(&a.2, &b.2) && same_arr(&a.3, &b.3),
+                        (Err(a), Err(b)) => a == b,
+                        _ => false,
+                    });
+                }
+            }
+
+            fn pca(c: &Case, obs: &mut Obs, k: &mut Knobs) {
+                const P: &str = "PcaParams";
+                const T: &str = "Pca";
+                // Pca is fitted in f64 only
+                let x: Array2<f64> = mat(&c.x);
+                let params = linfa_reduction::Pca::params(k.pick(ncols(c) + 2)).whiten(k.flag());
+                let ds = DatasetBase::from(x);
+                obs.class(P);
+                let want_fit = fit_outcome(|| params.fit(&ds));
+                for (fmt, back) in roundtrip(obs, P, &params, STABLE) {
+                    eq_check(obs, P, fmt, &params, &back);
+                    same_refit(obs, P, fmt, &want_fit, fit_outcome(|| back.fit(&ds)));
+                }
+                let model = match vengine::guard(|| params.fit(&ds)) {
+                    Ok(Ok(m)) => m,
+                    _ => return obs.class("no_fitted_instance"),
+                };
+                obs.class(T);
+                obs.nontrivial();
+                let q: Array2<f64> = mat(&with_fixed_queries(&c.q, ncols(c)));
+                let want = observe(|| model.predict(&q));
+                let proj = want.clone().ok();
+                let want_inv = observe(|| model.inverse_transform(proj.clone().expect("projection")));
+                let want_tr = observe(|| model.transform(DatasetBase::from(q.clone())).records);
+                for (fmt, back) in roundtrip(obs, T, &model, STABLE) {
+                    eq_check(obs, T, fmt, &model, &back);
+                    must(obs, T, fmt, "components", same_arr(model.components(), back.components()));
+                    must(obs, T, fmt, "mean", same_arr(model.mean(), back.mean()));
+                    must(obs, T, fmt, "singular_values", same_arr(model.singular_values(), back.singular_values()));
+                    must(obs, T, fmt, "explained_variance", same_arr(&model.explained_variance(), &back.explained_variance()));
+                    must(obs, T, fmt, "explained_variance_ratio", same_arr(&model.explained_variance_ratio(), &back.explained_variance_ratio()));
+                    same_behaviour(obs, T, fmt, "predict", &want, || back.predict(&q), |a, b| same_arr(a, b));
+                    same_behaviour(obs, T, fmt, "transform", &want_tr, || back.transform(DatasetBase::from(q.clone())).records, |a, b| same_arr(a, b));
+                    same_behaviour(obs, T, fmt, "inverse_transform", &want_inv, || back.inverse_transform(proj.clone().expect("projection")), |a, b| same_arr(a, b));
+                }
+            }
+
+            fn ica(c: &Case, obs: &mut Obs, k: &mut Knobs) {
+                const P: &str = "FastIcaValidParams";
+                const T: &str = "FastIca";
+                let p = ncols(c);
+                let mut params = FastIca::<F>::params()
+                    .gfunc([GFunc::Logcosh(1.0), GFunc::Logcosh(1.5), GFunc::Exp, GFunc::Cube, GFunc::Logcosh(3.0)][k.pick(5)])
+                    .max_iter(1 + k.pick(30))
+                    .tol(F::of([1e-4, 1e-2, 0.0][k.pick(3)]))
+                    .random_state((c.seed % 1000) as usize);
+                if k.flag() {
+                    params = params.ncomponents(1 + k.pick(p));
+                }
+                let valid = match params.check() {
+                    Ok(v) => v,
+                    Err(_) => return obs.skip("params_invalid"),
+                };
+                let ds = DatasetBase::from(mat::<F>(&c.x));
+                obs.class(P);
+                let want_fit = fit_outcome(|| valid.fit(&ds));
+                for (fmt, back) in roundtrip(obs, P, &valid, STABLE) {
+                    eq_check(obs, P, fmt, &valid, &back);
+                    must(obs, P, fmt, "ncomponents", valid.ncomponents() == back.ncomponents());
+                    must(obs, P, fmt, "gfunc", valid.gfunc() == back.gfunc());
+                    must(obs, P, fmt, "max_iter", valid.max_iter() == back.max_iter());
+                    must(obs, P, fmt, "tol", same(valid.tol(), back.tol()));
+                    must(obs, P, fmt, "random_state", valid.random_state() == back.random_state());
+                    same_refit(obs, P, fmt, &want_fit, fit_outcome(|| back.fit(&ds)));
+                }
+                let model = match vengine::guard(|| valid.fit(&ds)) {
+                    Ok(Ok(m)) => m,
+                    _ => return obs.class("no_fitted_instance"),
+                };
+                obs.class(T);
+                obs.nontrivial();
+                let q = queries(c);
+                let want = observe(|| model.predict(&q));
+                for (fmt, back) in roundtrip(obs, T, &model, STABLE) {
+                    eq_check(obs, T, fmt, &model, &back);
+                    same_behaviour(obs, T, fmt, "predict", &want, || back.predict(&q), |a, b| same_arr(a, b));
+                }
+            }
+
+            fn linear_scaler(c: &Case, obs: &mut Obs, k: &mut Knobs) {
+                const P: &str = "LinearScalerParams";
+                const T: &str = "LinearScaler";
+                let method: ScalingMethod<F> = match k.pick(4) {
+                    0 => ScalingMethod::Standard(k.flag(), k.flag()),
+                    1 => ScalingMethod::MinMax(F::of(k.range(-2.0, 0.0)), F::of(k.range(0.5, 3.0))),
+                    2 => ScalingMethod::MinMax(F::of(k.palette()), F::of(k.palette())),
+                    _ => ScalingMethod::MaxAbs,
+                };
+                const M: &str = "ScalingMethod";
+                for (fmt, back) in roundtrip(obs, M, &method, STABLE) {
+                    eq_check(obs, M, fmt, &method, &back);
+                    let bits = |m: &ScalingMethod<F>| match m {
+                        ScalingMethod::Standard(a, b) => (0u8, *a as u64, *b as u64),
+                        ScalingMethod::MinMax(a, b) => (1, a.bits(), b.bits()),
+                        ScalingMethod::MaxAbs => (2, 0, 0),
+                    };
+                    must(obs, M, fmt, "content", bits(&method) == bits(&back));
+                }
+                let params = LinearScalerParams::new(method);
+                let ds = DatasetBase::from(mat::<F>(&c.x));
+                obs.class(P);
+                let want_fit = fit_outcome(|| params.fit(&ds));
+                for (fmt, back) in roundtrip(obs, P, &params, STABLE) {
+                    eq_check(obs, P, fmt, &params, &back);
+                    same_refit(obs, P, fmt, &want_fit, fit_outcome(|| back.fit(&ds)));
+                }
+                let model = match vengine::guard(|| params.fit(&ds)) {
+                    Ok(Ok(m)) => m,
+                    _ => return obs.class("no_fitted_instance"),
+                };
+                obs.class(T);
+                obs.nontrivial();
+                let q = queries(c);
+                let want = observe(|| model.transform(q.clone()));
+                let want_ds = observe(|| model.transform(DatasetBase::from(q.clone())).records);
+                for (fmt, back) in roundtrip(obs, T, &model, STABLE) {
+                    eq_check(obs, T, fmt, &model, &back);
+                    must(obs, T, fmt, "offsets", same_arr(model.offsets(), back.offsets()));
+                    must(obs, T, fmt, "scales", same_arr(model.scales(), back.scales()));
+                    must(obs, T, fmt, "method", {
+                        #[allow(clippy::eq_op)]
+                        let self_eq = model.method() == model.method();
+                        !self_eq || model.method() == back.method()
+                    });
+                    same_behaviour(obs, T, fmt, "transform", &want, || back.transform(q.clone()), |a, b| same_arr(a, b));
+                    same_behaviour(obs, T, fmt, "transform-dataset", &want_ds, || back.transform(DatasetBase::from(q.clone())).records, |a, b| same_arr(a, b));
+                }
+            }
+
+            fn norm_scaler(c: &Case, obs: &mut Obs, k: &mut Knobs) {
+                const T: &str = "NormScaler";
+                let model = [NormScaler::l2(), NormScaler::l1(), NormScaler::max()][k.pick(3)].clone();
+                obs.class(T);
+                let q = queries(c);
+                let want = observe(|| model.transform(q.clone()));
+                for (fmt, back) in roundtrip(obs, T, &model, STABLE) {
+                    eq_check(obs, T, fmt, &model, &back);
+                    same_behaviour(obs, T, fmt, "transform", &want, || back.transform(q.clone()), |a, b| same_arr(a, b));
+                }
+            }
+
+            fn whitener(c: &Case, obs: &mut Obs, k: &mut Knobs) {
+                const P: &str = "Whitener";
+                const T: &str = "FittedWhitener";
+                let params = [Whitener::pca(), Whitener::zca(), Whitener::cholesky()][k.pick(3)].clone();
+                let ds = DatasetBase::from(mat::<F>(&c.x));
+                obs.class(P);
+                let want_fit = fit_outcome(|| Fit::<Array2<F>, _, _>::fit(&params, &ds));
+                for (fmt, back) in roundtrip(obs, P, &params, STABLE) {
+                    eq_check(obs, P, fmt, &params, &back);
+                    same_refit(obs, P, fmt, &want_fit, fit_outcome(|| Fit::<Array2<F>, _, _>::fit(&back, &ds)));
+                }
+                let model = match vengine::guard(|| Fit::<Array2<F>, _, _>::fit(&params, &ds)) {
+                    Ok(Ok(m)) => m,
+                    _ => return obs.class("no_fitted_instance"),
+                };
+                obs.class(T);
+                obs.nontrivial();
+                let q = queries(c);
+                let want = observe(|| model.transform(q.clone()));
+                for (fmt, back) in roundtrip(obs, T, &model, STABLE) {
+                    eq_check(obs, T, fmt, &model, &back);
+                    must(obs, T, fmt, "transformation_matrix", same_arr(&model.transformation_matrix(), &back.transformation_matrix()));
+                    must(obs, T, fmt, "mean", same_arr(&model.mean(), &back.mean()));
+                    same_behaviour(obs, T, fmt, "transform", &want, || back.transform(q.clone()), |a, b| same_arr(a, b));
+                }
+            }
+
+            fn lp_dist(c: &Case, obs: &mut Obs, k: &mut Knobs) {
+                const T: &str = "LpDist";
+                let d = LpDist::<F>(F::of(if k.rare() { k.palette() } else { [1.0, 2.0, 3.0, 1.5, 0.5][k.pick(5)] }));
+                obs.class(T);
+                let x: Array2<F> = mat(&c.x);
+                let q = queries(c);
+                let want = observe(|| q.outer_iter().map(|r| Distance::<F>::distance(&d, r, x.row(0))).collect::<Vec<F>>());
+                for (fmt, back) in roundtrip(obs, T, &d, STABLE) {
+                    eq_check(obs, T, fmt, &d, &back);
+                    must(obs, T, fmt, "exponent", same(d.0, back.0));
+                    same_behaviour(obs, T, fmt, "distance", &want, || q.outer_iter().map(|r| Distance::<F>::distance(&back, r, x.row(0))).collect::<Vec<F>>(), |a, b| same_slice(a, b));
+                }
+            }
+
+            fn method_dial(k: &mut Knobs) -> KernelMethod<F> {
+                match k.pick(4) {
+                    0 => KernelMethod::Linear,
+                    1 => KernelMethod::Gaussian(F::of([0.5, 4.0, 16.0][k.pick(3)])),
+                    2 => KernelMethod::Polynomial(F::of([1.0, 0.0, -1.0][k.pick(3)]), F::of([2.0, 3.0, 1.0][k.pick(3)])),
+                    _ => KernelMethod::Gaussian(F::of(k.palette())),
+                }
+            }
+
+            fn kernel_method(c: &Case, obs: &mut Obs, k: &mut Knobs) {
+                const T: &str = "KernelMethod";
+                let m = method_dial(k);
+                obs.class(T);
+                let x: Array2<F> = mat(&c.x);
+                let q = queries(c);
+                let want = observe(|| q.outer_iter().map(|r| m.distance(r, x.row(0))).collect::<Vec<F>>());
+                for (fmt, back) in roundtrip(obs, T, &m, STABLE) {
+                    eq_check(obs, T, fmt, &m, &back);
+                    let bits = |m: &KernelMethod<F>| match m {
+                        KernelMethod::Gaussian(a) => (0u8, a.bits(), 0),
+                        KernelMethod::Linear => (1, 0, 0),
+                        KernelMethod::Polynomial(a, b) => (2, a.bits(), b.bits()),
+                    };
+                    must(obs, T, fmt, "content", bits(&m) == bits(&back));
+                    must(obs, T, fmt, "is_linear", m.is_linear() == back.is_linear());
+                    same_behaviour(obs, T, fmt, "distance", &want, || q.outer_iter().map(|r| back.distance(r, x.row(0))).collect::<Vec<F>>(), |a, b| same_slice(a, b));
+                }
+            }
+
+            fn kernel(c: &Case, obs: &mut Obs, k: &mut Knobs) {
+                const T: &str = "Kernel";
+                let x: Array2<F> = mat(&c.x);
+                let n = x.nrows();
+                let sparse = k.flag();
+                let kind = if sparse { KernelType::Sparse(1 + k.pick((n - 1).max(1).min(3))) } else { KernelType::Dense };
+                let method = match k.pick(3) {
+                    0 => KernelMethod::Linear,
+                    1 => KernelMethod::Gaussian(F::of([0.5, 4.0, 16.0][k.pick(3)])),
+                    _ => KernelMethod::Polynomial(F::of(1.0), F::of(2.0)),
+                };
+                let params = Kernel::<F>::params().kind(kind).method(method);
+                let model: Kernel<F> = match vengine::guard(|| params.transform(&x)) {
+                    Ok(m) => m,
+                    Err(_) => return obs.skip("kernel_build_panicked"),
+                };
+                obs.class(T);
+                obs.class_if(sparse, "kernel_sparse");
+                obs.class_if(!sparse, "kernel_dense");
+                obs.nontrivial();
+                // `KernelBase` derives the serde traits with the bound `KernelInner<K1, K2>: Serialize`; whether a kernel
+                // can be serialised at all is decided at compile time by the probe
+                let backs: Option<Vec<(Fmt, Kernel<F>)>> = (&Probe(&model)).try_roundtrip(obs, T, STABLE);
+                let backs = match backs {
+                    Some(b) => b,
+                    None => {
+                        obs.fail(
+                            "Kernel:serde-impl-missing",
+                            "linfa_kernel::Kernel<F> derives Serialize/Deserialize under the bound `KernelInner<K1, K2>: Serialize`, but KernelInner \
+                             implements neither trait, so no kernel (dense or sparse) can be serialised",
+                        );
+                        return;
+                    }
+                };
+                let want_dot = observe(|| model.dot(&x.view()));
+                for (fmt, back) in backs {
+                    eq_check(obs, T, fmt, &model, &back);
+                    must(obs, T, fmt, "size", model.size() == back.size());
+                    must(obs, T, fmt, "is_linear", model.is_linear() == back.is_linear());
+                    must(obs, T, fmt, "method", model.method == back.method);
+                    let w = observe(|| (model.sum(), model.diagonal(), model.to_upper_triangle(), (0..model.size()).map(|i| model.column(i)).collect::<Vec<_>>()));
+                    same_behaviour(
+                        obs,
+                        T,
+                        fmt,
+                        "entries",
+                        &w,
+                        || (back.sum(), back.diagonal(), back.to_upper_triangle(), (0..back.size()).map(|i| back.column(i)).collect::<Vec<_>>()),
+                        |a, b| same_arr(&a.0, &b.0) && same_arr(&a.1, &b.1) && same_slice(&a.2, &b.2) && a.3.len() == b.3.len() && a.3.iter().zip(b.3.iter()).all(|(x, y)| same_slice(x, y)),
+                    );
+                    same_behaviour(obs, T, fmt, "dot", &want_dot, || back.dot(&x.view()), |a, b| same_arr(a, b));
+                }
+            }
+        }
+    };
+}
+
+adapters!(impl_f32, f32);
+adapters!(impl_f64, f64);
